@@ -59,13 +59,15 @@ def exec_case(mod, case, fresh=False):
     lpc = lp_class(cfg) if cfg.get("lp") else "-"
     npc = np_class(cfg) if cfg.get("lp") else "-"
     akey = kernel.H(lpc, npc, json.dumps(abstract, sort_keys=True))
+    tapes = [e for e in ctx.log if e[0] in ("threads", "procs", "partition")]
+    tkey = kernel.H(json.dumps(tapes, sort_keys=True)) if tapes else None
     st = ctx.stats
     nontrivial = (st.get("oracle.comparisons", 0) > 0 and st.get("ops.train", 0) > 0 and
                   any(k.startswith(("fault.", "sched.", "knob.")) and v > 0 for k, v in st.items()))
     for v in ctx.violations:
         v["cls"] = vclass(mod.ID, v, lpc, npc)
         v["lp"], v["np"] = lpc, npc
-    return {"digest": ctx.digest(), "stats": dict(st), "violations": ctx.violations, "akey": akey,
+    return {"digest": ctx.digest(), "stats": dict(st), "violations": ctx.violations, "akey": akey, "tkey": tkey,
             "nontrivial": bool(nontrivial), "events": len(ctx.log), "monitor_events": ctx.monitor_events}
 
 
@@ -125,7 +127,7 @@ def _chunk(args):
         except Exception:
             faulthandler.cancel_dump_traceback_later()
             return {"harness_error": "run %d: %s" % (i, traceback.format_exc()), "case": case}
-        rec = {"i": i, "digest": res["digest"], "stats": res["stats"], "akey": res["akey"],
+        rec = {"i": i, "digest": res["digest"], "stats": res["stats"], "akey": res["akey"], "tkey": res["tkey"],
                "nontrivial": res["nontrivial"], "events": res["events"], "mon": res["monitor_events"],
                "t": time.perf_counter() - t0}
         if res["violations"]:
@@ -355,6 +357,9 @@ def run_property(prop, tier, verif_seed, budget_s=None, n_runs=None, workers=Non
             "operation-kind sequence, scheduler/partition/fault tape).",
             "samples": samples,
             "distinct_event_logs": len(digests),
+            "distinct_interleavings": len({r["tkey"] for r in recs if r.get("tkey") is not None}),
+            "distinct_interleavings_measure": "distinct scheduler decision tapes of a run: the sequence of (thread-mode task "
+            "pick order incl. yields, process-mode batch grouping and order, partition sizes) over all SimParallel calls",
             "runs_per_hour": runs_per_hour,
             "seeds_per_hour": runs_per_hour,
             "simulated_time": "none: mabwiser has no clocks, timers or deadlines; logical steps are reported",
